@@ -132,9 +132,7 @@ def check_sequences(res: Result, seqs, roundtrip_every):
             ref.set(name, val)
             try:
                 if name in ("FC", "FZ") and i % 2:
-                    py.set_flag(name[1], val & 1)   # flags through the flag API as well
-                    if val & ~1:
-                        py.set(RegisterName[name], val)
+                    py.set_flag(name[1], val)   # flags through the flag API as well (any value: truncated to bit 0)
                 else:
                     py.set_by_name(name, val)
             except _contract["exc"] as e:
